@@ -58,8 +58,8 @@ def judge_results(results, fmt, expected_units: list[list[str]] | None, kind: st
         all_units.append((units, nums))
     if expected_units is None:
         return fails
-    if not any(expected_units):
-        return fails  # a document without any body text: nothing to attribute
+    if not any(expected_units) and not (kind in PER_UNIT and len(expected_units) >= 2):
+        return fails  # a document without any body text: nothing to attribute (several empty pages / slides / sheets still are that many units)
     n_src = len(expected_units)
     if kind in PER_UNIT:
         units, nums = all_units[0] if all_units else ([], [])
